@@ -1,5 +1,5 @@
 (* Token codec for Model/IdFrag.v (no proofs).  run_idfrag : list Z -> list Z
-   input : variant (0 head | 1 old_json | 2 registering) :: n0 (first uuid4 draw) :: operations
+   input : variant (0 head | 1 old_json | 2 before_330f52e) :: n0 (first uuid4 draw) :: operations
      0            Save            1 n (o u? t?)*n   Load   (an option is two tokens: 0 0 = None, 1 z = Some z)
      2            Reload          3 o               Add
      4 o          Remove          5 o t?            SetIdAttr
@@ -10,7 +10,7 @@
 From Coq Require Import ZArith List Bool.
 From PyecoreV Require Import Model.IdFrag.
 Import ListNotations.
-Open Scope Z_scope.
+Local Open Scope Z_scope.
 
 Definition dec_opt (a b : Z) : option Z := if Z.eqb a 0 then None else Some b.
 
@@ -55,7 +55,7 @@ Fixpoint run_obs (v : variant) (s : state) (h : list op) : list Z :=
   end.
 
 Definition dec_variant (z : Z) : variant :=
-  if Z.eqb z 1 then old_json else if Z.eqb z 2 then registering else head.
+  if Z.eqb z 1 then old_json else if Z.eqb z 2 then before_330f52e else head.
 
 Definition run_idfrag (t : list Z) : list Z :=
   match t with
